@@ -63,7 +63,11 @@ PathsM  == {"/pets", "/pets/{id}"}
 TagSets == {<<>>, <<"pets">>, <<"pets", "users">>}
 RespMaps == {"none", "default_only", "ok_and_default", "three"}
 \* inline_params: a `Parameters:` block inside the swagger:route comment (+ name: ... in: ... type: ...)
-Blocks  == {"consumes", "produces", "schemes", "deprecated", "security", "summary", "inline_params"}
+\* companion_operation: the FILE that carries the swagger:route also carries a swagger:operation annotation (YAML body)
+\* for another operation: both kinds of annotation in one file, both operations in the document
+Blocks  == {"consumes", "produces", "schemes", "deprecated", "security", "summary", "inline_params", "companion_operation"}
+Companion == [method |-> "GET", path |-> "/companions", id |-> "listCompanions", tags |-> <<"companions">>,
+              param |-> [name |-> "climit", loc |-> "query", type |-> "integer", required |-> FALSE]]
 \* three of them: the first declares an enum and a default, the second bounds, the third nothing - what one
 \* parameter of the block declares says nothing about the next
 InlineParams == {[name |-> "isort", loc |-> "query", type |-> "string", required |-> FALSE, enum |-> <<"asc", "desc">>, default |-> "asc"],
